@@ -17,6 +17,7 @@
 package pseudonymization
 
 import (
+	"errors"
 	"strconv"
 
 	"github.com/sirupsen/logrus"
@@ -24,6 +25,10 @@ import (
 	"github.com/cossacklabs/acra/encryptor/base/config"
 	"github.com/cossacklabs/acra/pseudonymization/common"
 )
+
+// ErrNotInteger is returned for a value of an integer token type that is not an integer of that size.
+// The value itself is left out of the error: errors end up in logs.
+var ErrNotInteger = errors.New("value is not an integer of the token type's size")
 
 // DataTokenizer tokenizes and detokenizes data buffers.
 type DataTokenizer struct {
@@ -49,7 +54,7 @@ func (t *DataTokenizer) Tokenize(data []byte, context common.TokenContext, setti
 		// value out of int32 range is an error, not a value to be truncated silently
 		i, err := strconv.ParseInt(string(data), 10, 32)
 		if err != nil {
-			return nil, err
+			return nil, ErrNotInteger
 		}
 		newVal, err := anonymize(int32(i), context, common.TokenType_Int32)
 		if err != nil {
@@ -60,7 +65,7 @@ func (t *DataTokenizer) Tokenize(data []byte, context common.TokenContext, setti
 	case common.TokenType_Int64:
 		i, err := strconv.ParseInt(string(data), 10, 64)
 		if err != nil {
-			return nil, err
+			return nil, ErrNotInteger
 		}
 		newVal, err := anonymize(i, context, common.TokenType_Int64)
 		if err != nil {
@@ -104,7 +109,7 @@ func (t *DataTokenizer) Detokenize(data []byte, context common.TokenContext, set
 		// value out of int32 range is an error, not a value to be truncated silently
 		i, err := strconv.ParseInt(string(data), 10, 32)
 		if err != nil {
-			return nil, err
+			return nil, ErrNotInteger
 		}
 		newVal, err := t.tokenizer.Deanonymize(int32(i), context, common.TokenType_Int32)
 		if err != nil {
@@ -115,7 +120,7 @@ func (t *DataTokenizer) Detokenize(data []byte, context common.TokenContext, set
 	case common.TokenType_Int64:
 		i, err := strconv.ParseInt(string(data), 10, 64)
 		if err != nil {
-			return nil, err
+			return nil, ErrNotInteger
 		}
 		newVal, err := t.tokenizer.Deanonymize(i, context, common.TokenType_Int64)
 		if err != nil {
